@@ -107,6 +107,21 @@ fn tracker_visit_callarg<'a>(callarg: &ast::CallArg<'a>, state: &mut AssignmentT
     }
 }
 
+fn tracker_visit_call<'a>(call: &ast::Call<'a>, state: &mut AssignmentTracker<'a>) {
+    match call.identify_call() {
+        // `self.name()` renders a block: neither `self` nor the arguments are evaluated
+        #[cfg(feature = "multi_template")]
+        ast::CallType::Block(_) => return,
+        // `super()` is resolved by the engine without a variable lookup
+        #[cfg(feature = "multi_template")]
+        ast::CallType::Function("super") => {}
+        _ => tracker_visit_expr(&call.expr, state),
+    }
+    call.args
+        .iter()
+        .for_each(|x| tracker_visit_callarg(x, state));
+}
+
 fn tracker_visit_expr<'a>(expr: &ast::Expr<'a>, state: &mut AssignmentTracker<'a>) {
     match expr {
         ast::Expr::Var(var) => {
@@ -192,12 +207,7 @@ fn tracker_visit_expr<'a>(expr: &ast::Expr<'a>, state: &mut AssignmentTracker<'a
             tracker_visit_expr_opt(&slice.stop, state);
             tracker_visit_expr_opt(&slice.step, state);
         }
-        ast::Expr::Call(expr) => {
-            tracker_visit_expr(&expr.expr, state);
-            expr.args
-                .iter()
-                .for_each(|x| tracker_visit_callarg(x, state));
-        }
+        ast::Expr::Call(expr) => tracker_visit_call(expr, state),
         ast::Expr::List(expr) => expr.items.iter().for_each(|x| tracker_visit_expr(x, state)),
         ast::Expr::Tuple(expr) => expr.items.iter().for_each(|x| tracker_visit_expr(x, state)),
         ast::Expr::Map(expr) => expr.keys.iter().zip(expr.values.iter()).for_each(|(k, v)| {
@@ -221,7 +231,6 @@ fn track_assign<'a>(expr: &ast::Expr<'a>, state: &mut AssignmentTracker<'a>) {
 fn track_walk<'a>(node: &ast::Stmt<'a>, state: &mut AssignmentTracker<'a>) {
     match node {
         ast::Stmt::Template(stmt) => {
-            state.assign("self");
             stmt.children.iter().for_each(|x| track_walk(x, state));
         }
         ast::Stmt::EmitExpr(expr) => tracker_visit_expr(&expr.expr, state),
@@ -285,7 +294,6 @@ fn track_walk<'a>(node: &ast::Stmt<'a>, state: &mut AssignmentTracker<'a>) {
         #[cfg(feature = "multi_template")]
         ast::Stmt::Block(stmt) => {
             state.push();
-            state.assign("super");
             stmt.body.iter().for_each(|x| track_walk(x, state));
             state.pop();
         }
@@ -310,23 +318,13 @@ fn track_walk<'a>(node: &ast::Stmt<'a>, state: &mut AssignmentTracker<'a>) {
         }
         #[cfg(feature = "macros")]
         ast::Stmt::CallBlock(stmt) => {
-            tracker_visit_expr(&stmt.call.expr, state);
-            stmt.call
-                .args
-                .iter()
-                .for_each(|x| tracker_visit_callarg(x, state));
+            tracker_visit_call(&stmt.call, state);
             state.push();
             tracker_visit_macro(&stmt.macro_decl, state, true);
             state.pop();
         }
         #[cfg(feature = "loop_controls")]
         ast::Stmt::Continue(_) | ast::Stmt::Break(_) => {}
-        ast::Stmt::Do(stmt) => {
-            tracker_visit_expr(&stmt.call.expr, state);
-            stmt.call
-                .args
-                .iter()
-                .for_each(|x| tracker_visit_callarg(x, state));
-        }
+        ast::Stmt::Do(stmt) => tracker_visit_call(&stmt.call, state),
     }
 }
